@@ -246,7 +246,7 @@ def other_monitors_cases(rng, shard, nshards, S):
     cases += c09.gen(rng, shard, nshards, int(16 * S))
     cases += c10.gen(rng, shard, nshards, G.ALL_CURVES, int(8 * S))
     cases += c11.gen(rng, shard, nshards, int(20 * S), int(20 * S))
-    cases += c13.gen(rng, shard, nshards, int(6 * S), int(30 * S), False, [8, 9, 10, 12, 13, 16])
+    cases += c13.gen(rng, shard, nshards, int(6 * S), int(24 * S), False, [8, 9, 10, 12])
     cases += c14.gen(rng, shard, nshards, int(20 * S))
     cases += c17.gen(rng, shard, nshards, max(1, int(2 * S)), False)
     return [c for c in cases if c.only is None]
